@@ -11,6 +11,7 @@ package raft
 
 //@ addressable logFuture.log
 //@ addressable fileSnapshotMeta.SnapshotMeta
+//@ addressable configurationChangeFuture.logFuture
 
 //@ model LogStore { has map[uint64]bool; ent map[uint64]Log; first uint64; last uint64 }
 
@@ -722,8 +723,13 @@ package raft
 //@   requires futures_valid: forall k int :: 0 <= k && k < len(applyLogs) ==> applyLogs[k] != nil
 //@   requires futures_distinct: forall a int, b int :: 0 <= a && a < b && b < len(applyLogs) ==> applyLogs[a] != applyLogs[b]
 //@   requires index_range: r.lastLogIndex + len(applyLogs) < MaxInt63 && r.lastSnapshotIndex + len(applyLogs) < MaxInt63
+//@   modifies r.lastLogIndex, r.lastLogTerm, r.state, r.leaderAddr, r.leaderID, r.logs.has, r.logs.ent, r.logs.first, r.logs.last,
+//@            r.leaderState.commitment.commitIndex, r.leaderState.commitment.matchIndexes[*], allof("H.Log."), allof("H.logFuture."), allof("H.list."), allof("CH."), allof("E.PLog.")
 //@   ensures  appends_at_tail_in_own_term: forall k int :: 0 <= k && k < len(applyLogs) ==>
 //@              applyLogs[k].log.Index == old(lastEntryIndex(r)) + 1 + k && applyLogs[k].log.Term == r.currentTerm
+//@   ensures  failure_steps_down: len(applyLogs) > 0 && r.lastLogIndex == old(r.lastLogIndex) ==> r.state == Follower
+//@   ensures  first_index: len(applyLogs) > 0 ==> applyLogs[0].log.Index == old(lastEntryIndex(r)) + 1 && applyLogs[0].log.Term == r.currentTerm
+//@   ensures  first_stored_with_tail: len(applyLogs) > 0 && r.lastLogIndex != old(r.lastLogIndex) ==> r.logs.has[applyLogs[0].log.Index]
 //@   ensures  tail_moves_only_after_store: r.lastLogIndex != old(r.lastLogIndex) ==>
 //@              r.lastLogIndex == old(lastEntryIndex(r)) + len(applyLogs) && r.lastLogTerm == r.currentTerm &&
 //@              (forall k int :: 0 <= k && k < len(applyLogs) ==> r.logs.has[applyLogs[k].log.Index] && r.logs.ent[applyLogs[k].log.Index].Term == r.currentTerm)
@@ -884,6 +890,7 @@ package raft
 //@ func (s *FileSnapshotSink) Close
 //@   requires nonnil: s != nil && s.logger != nil && s.store != nil && s.store.logger != nil && s.store.retain >= 1 && s.buffered != nil && s.stateFile != nil && s.stateHash != nil
 //@   at call os.Rename#1 assert durable_before_visible: s.noSync || (fileSynced[s.stateFile] && fsyncs >= old(fsyncs) + 2)
+//@   at call (*FileSnapshotStore).ReapSnapshots#1 assert new_snapshot_durable_before_reaping: renames == old(renames) + 1 && (s.noSync || fsyncs >= old(fsyncs) + 3)
 //@   ensures  idempotent: old(s.closed) ==> result == nil && renames == old(renames) && fsyncs == old(fsyncs)
 //@   ensures  nil_means_durable_and_visible: result == nil && !old(s.closed) ==> renames == old(renames) + 1 && (s.noSync || fsyncs >= old(fsyncs) + 3)
 //@   ensures  at_most_one_rename: renames <= old(renames) + 1
@@ -892,3 +899,25 @@ package raft
 //@   requires nonnil: s != nil && s.logger != nil && s.buffered != nil && s.stateFile != nil && s.stateHash != nil
 //@   ensures  never_visible: renames == old(renames)
 //@   ensures  closed: s.closed
+
+
+// ---------------------------------------------------------------------------
+// C07: the leader applies a new configuration only together with its log entry
+
+//@ func EncodeConfiguration
+//@   trusted msgpack encoding (third-party codec); writes nothing
+//@   modifies nothing
+
+//@ func (r *Raft) startStopReplication
+//@   trusted starts/stops replication goroutines for the latest configuration; touches only leaderState.replState and metrics
+//@   modifies r.leaderState.replState[*]
+
+//@ func (r *Raft) appendConfigurationEntry
+//@   requires nonnil: r != nil && future != nil && r.logs != nil && r.logger != nil && r.trans != nil && r.leaderState.commitment != nil && r.leaderState.inflight != nil && typeis(r.conf.v, Config)
+//@   requires index_range: r.lastLogIndex + 1 < MaxInt63 && r.lastSnapshotIndex + 1 < MaxInt63
+//@   requires config_in_log: r.configurations.latestIndex <= lastEntryIndex(r)
+//@   requires is_leader: r.state == Leader
+//@   ensures  latest_only_if_stored: r.configurations.latestIndex != old(r.configurations.latestIndex) ==> r.logs.has[r.configurations.latestIndex]
+//@   ensures  rejected_change_has_no_effect: r.configurations.latestIndex == old(r.configurations.latestIndex) ==> r.configurations.latest == old(r.configurations.latest)
+//@   ensures  committed_untouched: r.configurations.committedIndex == old(r.configurations.committedIndex) && r.configurations.committed == old(r.configurations.committed)
+//@   ensures  appended_at_tail: r.configurations.latestIndex != old(r.configurations.latestIndex) ==> r.configurations.latestIndex == old(lastEntryIndex(r)) + 1
